@@ -11,18 +11,81 @@
 //	                                 begins ("-" = a single Write). Result as for write.
 //	conc <x..,x..;x..,x..;...>    -> concurrent writers (';' separates writers); every write is whole lines;
 //	                                 result = the sink's lines, sorted, as hex (multiset of lines) + nl flag
+//	event <shape> <x<ip text>,...(4)> <port,...(4)> <zone|->
+//	                              -> e=<hex of err.Error()> o=<hex> b=<hex> f=<hex>: an error chain of the kinds Go's
+//	                                 net, net/url and net/http produce (see mkErr), built from the four addresses, and the
+//	                                 String() of the three events of common/event that carry an error
+//	                                 (EventOnOfferCreated, EventOnBrokerRendezvous, EventOnSnowflakeConnectionFailed)
+//	evstr <offer|broker|failed> x<hex text> -> hex of the event's String() for errors.New(text) (model op of the same name)
 package main
 
 import (
+	"errors"
+	"fmt"
+	"io"
 	"net"
+	"net/url"
+	"os"
 	"sort"
 	"strconv"
 	"strings"
 	"sync"
+	"syscall"
 
+	"git.torproject.org/pluggable-transports/snowflake.git/v2/common/event"
 	"git.torproject.org/pluggable-transports/snowflake.git/v2/common/safelog"
 	"git.torproject.org/pluggable-transports/snowflake.git/v2/zz_verif/wire"
 )
+
+// NSHAPES error chains; ip[k], port[k] are the four addresses of the case, zone a zone identifier or ""
+const NSHAPES = 16
+
+func mkErr(shape int, ip []net.IP, port []int, zone string) error {
+	tcp := func(k int) *net.TCPAddr { return &net.TCPAddr{IP: ip[k], Port: port[k]} }
+	udp := func(k int) *net.UDPAddr { return &net.UDPAddr{IP: ip[k], Port: port[k]} }
+	refused := os.NewSyscallError("connect", syscall.ECONNREFUSED)
+	switch shape {
+	case 0: // dial tcp A: connect: connection refused
+		return &net.OpError{Op: "dial", Net: "tcp", Addr: tcp(0), Err: refused}
+	case 1: // read udp A->B: i/o timeout
+		return &net.OpError{Op: "read", Net: "udp", Source: udp(0), Addr: udp(1), Err: os.ErrDeadlineExceeded}
+	case 2: // dial tcp: lookup name on A: no such host
+		return &net.OpError{Op: "dial", Net: "tcp", Err: &net.DNSError{Err: "no such host", Name: "snowflake-broker.example", Server: udp(0).String(), IsNotFound: true}}
+	case 3: // address A: missing port in address
+		return &net.AddrError{Err: "missing port in address", Addr: ip[0].String()}
+	case 4:
+		return &net.OpError{Op: "dial", Net: "udp", Source: udp(1), Addr: udp(2), Err: &net.AddrError{Err: "mismatched local address type", Addr: ip[0].String()}}
+	case 5: // Get "https://A/proxy?x=1": dial tcp B: connect: connection refused
+		return &url.Error{Op: "Get", URL: "https://" + tcp(0).String() + "/proxy?x=1", Err: &net.OpError{Op: "dial", Net: "tcp", Addr: tcp(1), Err: refused}}
+	case 6:
+		return fmt.Errorf("broker rendezvous: %w (last tried %v)", &net.OpError{Op: "read", Net: "udp", Source: udp(0), Addr: udp(1), Err: os.ErrDeadlineExceeded}, tcp(2))
+	case 7: // write udp A->B: read udp C->D: connection reset by peer
+		return &net.OpError{Op: "write", Net: "udp", Source: udp(0), Addr: udp(1), Err: &net.OpError{Op: "read", Net: "udp", Source: udp(2), Addr: udp(3), Err: syscall.ECONNRESET}}
+	case 8: // lookup A on B: i/o timeout
+		return &net.DNSError{Err: "i/o timeout", Name: ip[0].String(), Server: tcp(1).String(), IsTimeout: true}
+	case 9:
+		return &net.ParseError{Type: "IP address", Text: tcp(0).String()}
+	case 10: // Post "http://A/": read tcp B->A: unexpected EOF
+		return &url.Error{Op: "Post", URL: "http://" + tcp(0).String() + "/", Err: &net.OpError{Op: "read", Net: "tcp", Source: tcp(1), Addr: tcp(0), Err: io.ErrUnexpectedEOF}}
+	case 11: // two errors, one per line
+		return errors.Join(&net.OpError{Op: "dial", Net: "tcp", Addr: tcp(0), Err: refused}, &net.AddrError{Err: "missing port in address", Addr: ip[1].String()})
+	case 12: // accept ip A%zone: ...
+		return &net.OpError{Op: "accept", Net: "ip", Addr: &net.IPAddr{IP: ip[0], Zone: zone}, Err: errors.New("too many open files")}
+	case 13:
+		return errors.New("timeout waiting for " + ip[0].String() + ", " + ip[1].String() + " and " + tcp(2).String())
+	case 14: // dial tcp [A%zone]:port: ...
+		return &net.OpError{Op: "dial", Net: "tcp", Source: tcp(1), Addr: &net.TCPAddr{IP: ip[0], Port: port[0], Zone: zone}, Err: &net.DNSError{Err: "server misbehaving", Name: "relay.example", Server: udp(2).String(), IsTemporary: true}}
+	case 15: // the wrapped error after text that ends with a dotted number
+		return fmt.Errorf("pion v3.1.%w", &net.OpError{Op: "write", Net: "udp", Source: udp(0), Addr: udp(1), Err: &url.Error{Op: "Get", URL: "http://" + tcp(2).String(), Err: &net.DNSError{Err: "no such host", Name: ip[3].String(), Server: udp(3).String()}}})
+	}
+	return nil
+}
+
+func eventStrings(err error) (string, string, string) {
+	return event.EventOnOfferCreated{Error: err}.String(),
+		event.EventOnBrokerRendezvous{Error: err}.String(),
+		event.EventOnSnowflakeConnectionFailed{Error: err}.String()
+}
 
 type sink struct {
 	mu     sync.Mutex
@@ -127,7 +190,62 @@ func accepts(s string) bool {
 	return err == nil && n >= 0 && n <= 65535 && len(port) <= 5
 }
 
+func handleEvent(args []string) string {
+	shape, err := strconv.Atoi(args[1])
+	if err != nil || shape < 0 || shape >= NSHAPES {
+		return "!badcase"
+	}
+	var ips []net.IP
+	for _, b := range payloads(args[2]) {
+		ip := net.ParseIP(string(b))
+		if ip == nil {
+			return "!badcase"
+		}
+		if v4 := ip.To4(); v4 != nil && !strings.Contains(string(b), ":") {
+			ip = v4
+		}
+		ips = append(ips, ip)
+	}
+	var ports []int
+	for _, p := range wire.List(args[3]) {
+		n, err := strconv.Atoi(p)
+		if err != nil {
+			return "!badcase"
+		}
+		ports = append(ports, n)
+	}
+	if len(ips) != 4 || len(ports) != 4 {
+		return "!badcase"
+	}
+	zone := args[4]
+	if zone == "-" {
+		zone = ""
+	}
+	e := mkErr(shape, ips, ports, zone)
+	o, b, f := eventStrings(e)
+	return "e=" + hexOrDash([]byte(e.Error())) + " o=" + hexOrDash([]byte(o)) + " b=" + hexOrDash([]byte(b)) + " f=" + hexOrDash([]byte(f))
+}
+
 func handle(args []string) string {
+	if len(args) == 5 && args[0] == "event" {
+		return handleEvent(args)
+	}
+	if len(args) == 3 && args[0] == "evstr" {
+		b, err := wire.Payload(args[2])
+		if err != nil {
+			return "!badcase"
+		}
+		o, br, f := eventStrings(errors.New(string(b)))
+		switch args[1] {
+		case "offer":
+			return hexOrDash([]byte(o))
+		case "broker":
+			return hexOrDash([]byte(br))
+		case "failed":
+			return hexOrDash([]byte(f))
+		}
+		return "!badcase"
+	}
 	if len(args) == 3 && args[0] == "prints" {
 		// prints x<4 or 16 bytes> <port>: what net.IP.String and net.TCPAddr.String print
 		b, err := wire.Payload(args[1])
